@@ -22,7 +22,7 @@ if git status --short | grep -q "^UU DESIGN.md"; then python3 /verif/tools/keepb
 for f in MANIFEST.json props/not_applicable.json; do
   if git status --short | grep -q "^\(UU\|AA\) $f"; then git checkout --ours $f; git add $f; fi
 done
-for f in $(git status --short | grep "^\(UU\|AA\) evidence/" | awk '{print $2}'); do git checkout --theirs $f; git add $f; done
+for f in $(git status --short | grep "^\(UU\|AA\) \(evidence\|seeded\)/" | awk '{print $2}'); do git checkout --theirs $f; git add $f; done
 git status --short | grep "^\(UU\|AA\|DU\|UD\)" && { echo "UNRESOLVED CONFLICTS (merge aborted)"; git merge --abort; exit 1; }
 python3 tools/mkmanifest.py
 git add -A
